@@ -4,6 +4,7 @@ mod report;
 mod util;
 mod checks;
 mod data;
+mod httpd;
 
 use std::path::{Path, PathBuf};
 use std::process::{Command, Stdio};
